@@ -362,6 +362,10 @@ func (e *Engine) episode(ops []string, res *report.Result) *report.Failure {
 	everTimeout := map[string]bool{}
 	everLimit := map[string]bool{}
 	everSlicer := map[string]bool{}
+	everBandwidth := map[string]bool{}
+	toxZero := map[string]bool{}   // toxicity given as exactly 0
+	lastSelf := map[string]int64{} // toxic -> virtual time of its own add / last update
+	var lastDone atomic.Int64      // virtual time at which the latest API call returned
 	// C11 (moment of the close): directions whose only toxic ever is one limit_data toxic at toxicity 1
 	// ("" none yet, "*" disqualified), and the limits it had, with the virtual time they were set
 	limOnly := map[string]string{}
@@ -532,6 +536,11 @@ func (e *Engine) episode(ops []string, res *report.Result) *report.Failure {
 				if w[3] == "slicer" {
 					everSlicer[w[1]] = true
 				}
+				if w[3] == "bandwidth" {
+					everBandwidth[w[1]] = true
+				}
+				toxZero[w[2]] = w[7] == "0"
+				lastSelf[w[2]] = since()
 				if limOnly[w[1]] == "" && w[3] == "limit_data" && w[7] == "1" {
 					limOnly[w[1]] = w[2]
 					limHist[w[1]] = append(limHist[w[1]], limEv{since(), a1})
@@ -576,6 +585,7 @@ func (e *Engine) episode(ops []string, res *report.Result) *report.Failure {
 				apiBusy.Add(1)
 				go func() {
 					proxy.Toxics.AddToxicJson(strings.NewReader(body))
+					lastDone.Store(time.Since(t0).Nanoseconds())
 					apiBusy.Add(-1)
 				}()
 			}
@@ -600,6 +610,8 @@ func (e *Engine) episode(ops []string, res *report.Result) *report.Failure {
 					}
 				}
 				toxOn[w[1]] = w[6] == "1"
+				toxZero[w[1]] = w[6] == "0"
+				lastSelf[w[1]] = since()
 				switch toxType[w[1]] {
 				case "timeout":
 					if w[6] != "1" {
@@ -638,6 +650,7 @@ func (e *Engine) episode(ops []string, res *report.Result) *report.Failure {
 				apiBusy.Add(1)
 				go func() {
 					proxy.Toxics.UpdateToxicJson(w[1], strings.NewReader(body))
+					lastDone.Store(time.Since(t0).Nanoseconds())
 					apiBusy.Add(-1)
 				}()
 			}
@@ -651,6 +664,7 @@ func (e *Engine) episode(ops []string, res *report.Result) *report.Failure {
 				apiBusy.Add(1)
 				go func() {
 					proxy.Toxics.UpdateToxicJson(w[1], strings.NewReader(`{"attributes":{"latency":"x","rate":"x","delay":"x","timeout":"x","bytes":"x","average_size":"x"},"toxicity":"x"}`))
+					lastDone.Store(time.Since(t0).Nanoseconds())
 					apiBusy.Add(-1)
 				}()
 			}
@@ -677,6 +691,7 @@ func (e *Engine) episode(ops []string, res *report.Result) *report.Failure {
 				apiBusy.Add(1)
 				go func() {
 					proxy.Toxics.RemoveToxic(context.Background(), w[1])
+					lastDone.Store(time.Since(t0).Nanoseconds())
 					apiBusy.Add(-1)
 				}()
 			}
@@ -700,6 +715,7 @@ func (e *Engine) episode(ops []string, res *report.Result) *report.Failure {
 				apiBusy.Add(1)
 				go func() {
 					proxy.Toxics.ResetToxics(context.Background())
+					lastDone.Store(time.Since(t0).Nanoseconds())
 					apiBusy.Add(-1)
 				}()
 			}
@@ -900,7 +916,7 @@ func (e *Engine) episode(ops []string, res *report.Result) *report.Failure {
 			l.mu.Lock()
 			got := append([]byte(nil), l.all...)
 			l.mu.Unlock()
-			if of := e.streamOracle(fail, len(ops)-1, l, got, everTimeout[l.dir], everLimit[l.dir], everSlicer[l.dir]); of != nil {
+			if of := e.streamOracle(fail, len(ops)-1, l, got, everTimeout[l.dir], everLimit[l.dir], everSlicer[l.dir], everBandwidth[l.dir]); of != nil {
 				result = of
 				break
 			}
@@ -1003,12 +1019,17 @@ func (e *Engine) episode(ops []string, res *report.Result) *report.Failure {
 				result = of
 				break
 			}
-			// C04/C08: a direction whose only toxic is a latency toxic (toxicity 1, jitter 0, latency L
-			// as listed now): with a receiver that was ready throughout, every byte has arrived by
-			// max(hand-in + L, last toxic change) - a connection made before the last update included
-			if ch := chainOf[l.dir]; len(ch) == 1 && toxType[ch[0]] == "latency" && toxOn[ch[0]] && attrsOf[ch[0]][1] == 0 && attrsOf[ch[0]][0] >= 0 &&
-				sinkAlways[l.name] && !failed[l.name] && (result == nil || e.OracleOnly) {
+			// C04/C08/C14: a direction whose only toxic is a latency toxic (jitter 0, latency L as listed
+			// now, toxicity exactly 1 - or exactly 0, then it must not delay at all): with a receiver
+			// that was ready throughout, every byte has arrived by max(hand-in + L, last toxic change) -
+			// a connection made before the last update included -, and a byte handed in after the last
+			// API call returned is not forwarded before hand-in + L
+			if ch := chainOf[l.dir]; len(ch) == 1 && toxType[ch[0]] == "latency" && (toxOn[ch[0]] || toxZero[ch[0]]) && attrsOf[ch[0]][1] == 0 && attrsOf[ch[0]][0] >= 0 &&
+				!failed[l.name] && apiBusy.Load() == 0 && (result == nil || e.OracleOnly) {
 				L := attrsOf[ch[0]][0] * 1000000
+				if !toxOn[ch[0]] {
+					L = 0
+				}
 				l.mu.Lock()
 				off := 0
 				for _, wr := range l.hist {
@@ -1023,13 +1044,25 @@ func (e *Engine) episode(ops []string, res *report.Result) *report.Failure {
 					if lastCfg[l.dir] > due {
 						due = lastCfg[l.dir]
 					}
-					if first >= 0 && wr.at > due+1000000 {
+					if sinkAlways[l.name] && first >= 0 && wr.at > due+1000000 {
 						prop, sig := "C08", "e3:C08:forwarded-late"
-						if lastCfg[l.dir] > l.born {
+						if lastSelf[ch[0]] > l.born {
 							prop, sig = "C04", "e3:C04:update-not-in-effect-on-old-connection"
 						}
-						result = fail(len(ops)-1, "oracle", prop, fmt.Sprintf("by t=%d", due), fmt.Sprintf("link %s: bytes handed in at t=%d forwarded at t=%d (latency listed: %d ms, last toxic change t=%d)", l.name, first, wr.at, attrsOf[ch[0]][0], lastCfg[l.dir]),
-							"with a ready receiver a piece was held longer than the listed latency (counted from its arrival, or from the toxic's last update if that is later)", sig)
+						if !toxOn[ch[0]] {
+							prop, sig = "C14", "e3:C14:toxicity-zero-still-applied"
+						}
+						result = fail(len(ops)-1, "oracle", prop, fmt.Sprintf("by t=%d", due), fmt.Sprintf("link %s: bytes handed in at t=%d forwarded at t=%d (latency listed: %d ms, toxicity on=%v, last toxic change t=%d)", l.name, first, wr.at, attrsOf[ch[0]][0], toxOn[ch[0]], lastCfg[l.dir]),
+							"with a ready receiver a piece was held longer than the listed latency toxic allows (counted from its arrival, or from the toxic's last update if that is later)", sig)
+						break
+					}
+					if first > lastDone.Load() && first > lastCfg[l.dir] && wr.at < first+L-1000000 {
+						prop, sig := "C08", "e3:C08:forwarded-early-after-change"
+						if lastSelf[ch[0]] > l.born {
+							prop, sig = "C04", "e3:C04:listed-latency-not-applied-on-old-connection"
+						}
+						result = fail(len(ops)-1, "oracle", prop, fmt.Sprintf("not before t=%d", first+L), fmt.Sprintf("link %s: bytes handed in at t=%d forwarded at t=%d (latency listed: %d ms, last toxic change t=%d, returned t=%d)", l.name, first, wr.at, attrsOf[ch[0]][0], lastCfg[l.dir], lastDone.Load()),
+							"a piece handed in after the last toxic change had returned passed the direction's only toxic, a latency toxic at toxicity 1, earlier than its listed latency", sig)
 						break
 					}
 				}
@@ -1080,6 +1113,12 @@ func (e *Engine) episode(ops []string, res *report.Result) *report.Failure {
 					if strings.Contains(","+e.Props+",", ",C01,") && !strings.Contains(","+e.Props+",", ",C02,") {
 						prop = "C01"
 					}
+					if e.Props == "C12" && everSlicer[l.dir] {
+						prop = "C12"
+					}
+					if e.Props == "C09" && everBandwidth[l.dir] {
+						prop = "C09"
+					}
 					result = fail(len(ops)-1, "oracle", prop, "", fmt.Sprintf("link %s: sent %d bytes, got %d, closed=%v", l.name, len(l.sent), len(got), closed),
 						"with only data-preserving toxics the complete stream was not delivered (or end-of-stream not propagated) after the sender closed", "e3:"+prop+":incomplete")
 					break
@@ -1096,7 +1135,7 @@ func (e *Engine) episode(ops []string, res *report.Result) *report.Failure {
 			l.mu.Lock()
 			got := append([]byte(nil), l.all...)
 			l.mu.Unlock()
-			if of := e.streamOracle(fail, len(ops)-1, l, got, everTimeout[l.dir], everLimit[l.dir], everSlicer[l.dir]); of != nil {
+			if of := e.streamOracle(fail, len(ops)-1, l, got, everTimeout[l.dir], everLimit[l.dir], everSlicer[l.dir], everBandwidth[l.dir]); of != nil {
 				if result == nil || e.OracleOnly {
 					result = of
 				}
@@ -1182,11 +1221,15 @@ func capOracle(fail func(int, string, string, string, string, string, string) *r
 // streamOracle: what a sink received is an in-order part of what its source sent, and a
 // prefix of it unless a timeout toxic was ever applied in that direction (C02); with no
 // dropping/truncating toxic ever present it is a prefix at all times (C01).
-func (e *Engine) streamOracle(fail func(int, string, string, string, string, string, string) *report.Failure, at int, l *lnk, got []byte, everTimeout, everLimit, everSlicer bool) *report.Failure {
+func (e *Engine) streamOracle(fail func(int, string, string, string, string, string, string) *report.Failure, at int, l *lnk, got []byte, everTimeout, everLimit, everSlicer, everBandwidth bool) *report.Failure {
 	prop := "C02"
 	// (C12: "re-chunks without changing the stream" - a stream that passed a slicer and is changed)
 	if e.Props == "C12" && everSlicer {
 		prop = "C12"
+	}
+	// (C09: "order and content are preserved")
+	if e.Props == "C09" && everBandwidth {
+		prop = "C09"
 	}
 	if strings.Contains(","+e.Props+",", ",C01,") && !strings.Contains(","+e.Props+",", ",C02,") {
 		prop = "C01"
